@@ -35,5 +35,8 @@ Proof.
   - intros n p Hn H. destruct n; [contradiction|]. destruct n; discriminate.
   - constructor.
   - simpl. lia.
+  - reflexivity.
+  - intros p n [].
+  - intros t n [].
 Qed.
 End Init.
